@@ -1,4 +1,5 @@
 import Sm9.Proofs.Pow
+import Sm9.Proofs.SpecField
 import Sm9.Proofs.Consts
 import Sm9.Proofs.FinalExp
 import Sm9.Proofs.MillerFrobenius
@@ -155,5 +156,20 @@ theorem miller_loops_agree_after_final_exp (xP yP : Fq) (hP : yP * yP = xP * xP 
   rw [neg_pow, neg_one_pow_final, one_mul, mul_pow, ofFq2_pow_final κ hκ, one_mul]
   exact specMillerNaf_reduced_eq_specMiller_reduced xP yP hP xQ yQ hQ k hk
 theorem neg_one_killed : (-1 : Fq12) ^ ((q ^ 12 - 1) / r) = 1 := Miller.neg_one_pow_final
+
+/-! ## the tower is `F_q[w]/(w¹²+2)`, against the independent schoolbook implementation
+
+`toF12` is the coordinate vector of a tower element in the basis `1, w, …, w¹¹` (`w ↦ X`, `v = w³`, `u = w⁶`: kernel checks
+`toF12_w/v/u`), and the oracle's schoolbook product and square-and-multiply power on such vectors (`Sm9.Spec.F12.mul`, `pow`:
+multiply as polynomials, replace `w¹²` by `−2`) are the tower's product and power — on **every** element (Proofs/SpecField.lean). -/
+open Sm9.SpecField in
+theorem tower_is_schoolbook_extension (x y : Fq12) (e : Nat) :
+    Spec.F12.mul (toF12 x) (toF12 y) = toF12 (x * y) ∧ Spec.F12.add (toF12 x) (toF12 y) = toF12 (x + y) ∧
+    Spec.F12.pow (toF12 x) e = toF12 (x ^ e) ∧ Spec.F12.one = toF12 (1 : Fq12) ∧ Function.Injective toF12 :=
+  ⟨toF12_mul x y, toF12_add x y, toF12_pow x e, toF12_one, toF12_injective⟩
+open Sm9.SpecField in
+theorem tower_generators_in_flat_basis :
+    toF12 Fq12.w = Spec.F12.mono 1 1 ∧ toF12 ⟨Fq4.v, 0, 0⟩ = Spec.F12.mono 3 1 ∧
+    toF12 (Fq12.ofFq2 Fq2.i) = Spec.F12.mono 6 1 := ⟨toF12_w, toF12_v, toF12_u⟩
 
 end Sm9.C17
